@@ -41,6 +41,20 @@ def sim_behaviours(wd, module, cfg, n, depth, seed, tag="sim"):
     return out
 
 
+def cover_behaviours(wd, cfg, timeout=3000):
+    """MC_WriterCover: one call sequence per (class of source state, call, result) transition of the writer model"""
+    r = vlib.tlc_run("MC_WriterCover.tla", cfg, wd, workers=1, timeout=timeout, tag="cover")
+    if r["error"] or not r["ok"]:
+        log(r["out"][-2000:])
+        raise ToolTrouble("MC_WriterCover did not complete: %s" % r["error"])
+    out = []
+    for m in re.finditer(r'<<"COVER", "(.*)">>', r["out"]):
+        out.append(json.loads(json.loads('"' + m.group(1) + '"')))
+    if not out:
+        raise ToolTrouble("MC_WriterCover printed no transitions")
+    return out, r
+
+
 def add_referees(trace, rep):
     """run the external parsers on every dumped archive and insert their verdicts after the Layout event"""
     import referee
@@ -211,6 +225,15 @@ def c12(tier):
     scs = [gen_writer.from_model("m%05d" % i, h) for i, h in enumerate(beh)]
     rep.samples.append({"model_behaviour": [c["op"] for c in beh[0]]})
     run_writer_programs(rep, wd, scs, "model")
+    # transition coverage: one call sequence for every (state class, call, result) transition of the model's complete state graph
+    cov, r = cover_behaviours(wd, "MC_WriterCover.cfg" if tier == "thorough" else "MC_WriterCover_small.cfg")
+    rep.add_mc(r, "MC_WriterCover")
+    rep.notes["transition_classes_model"] = len(cov)
+    if tier == "quick":
+        cov = random.Random(sd * 31 + 5).sample(cov, min(len(cov), 900))
+    rep.notes["transition_classes_replayed"] = len(cov)
+    scs = [gen_writer.from_model("t%05d" % i, h) for i, h in enumerate(cov)]
+    run_writer_programs(rep, wd, scs, "cover", neg_control=False)
     # impl -> spec: random programs, any call order, concrete large parameters
     g = gen_writer.Gen(sd * 7919 + 12, tier)
     scs = [g.any_order("r%05d" % i, g.r.randint(3, depth)) for i in range(n_rand)]
@@ -2763,7 +2786,8 @@ def c08(tier):
     trace = os.path.join(wd, "zip64-trace.ndjson")
     vlib.write_ndjson(progs, scs)
     vlib.run_harness(["zexec", progs, trace], timeout=7200)
-    run_trace(rep, wd, "Trace_Zip64", trace, "zip64", {s["sc"]: {k: v for k, v in s.items() if k != "segments"} for s in scs})
+    res = run_trace(rep, wd, "Trace_Zip64", trace, "zip64", {s["sc"]: {k: v for k, v in s.items() if k != "segments"} for s in scs})
+    rejected_scs = {rj["sc"] for rj in (res or {}).get("rejections", [])}
     evs = vlib.read_ndjson(trace)
     rep.evaluations += len(scs)
     for s in scs:
@@ -2775,7 +2799,11 @@ def c08(tier):
             outc[k] = outc.get(k, 0) + 1
     rep.notes["call_outcomes"] = outc
     rep.notes["scenarios"] = [s["sc"] for s in scs]
-    a = next(e for e in evs if e.get("ev") == "ZArch" and e.get("z64"))
+    a = next((e for e in evs if e.get("ev") == "ZArch" and e.get("z64") and e.get("sel") and e["sc"] not in rejected_scs), None)
+    if a is None:
+        if rep.violations:      # nothing accepted to sample from: report what was found
+            return rep.finish("model_checking", "ZIP64 scenarios at the real limits (see the violations)")
+        raise ToolTrouble("no accepted ZIP64 archive to sample")
     rep.samples.append({"scenario": a["sc"], "n": a["n"], "cd_start": a["cd_start"], "eocd": {k: a["eocd"][k] for k in ("n_total", "cd_size", "cd_offset")},
                         "z64": {k: a["z64"][0][k] for k in ("n_total", "cd_size", "cd_offset")},
                         "first_selected_central": {k: a["sel"][0]["c"][k] for k in ("usize32", "csize32", "off32", "usize", "csize", "off", "zcount")}})
@@ -3190,6 +3218,20 @@ def main():
         sys.exit(CHECKS[pid](tier))
     except ToolTrouble as e:
         log("TOOL TROUBLE: %s" % e)
+        rep = Report.CURRENT
+        if rep is not None and rep.violations:
+            sys.exit(rep.finish("model_checking", "(tool trouble after these violations were recorded: %s)" % e))
+        sys.exit(2)
+    except SystemExit:
+        raise
+    except BaseException:      # a bug of the machinery is never reported as a violation (exit 1 is reserved for VIOLATION lines)
+        import traceback
+        traceback.print_exc()
+        rep = Report.CURRENT
+        if rep is not None and rep.violations:
+            # violations recorded before the crash are real observations: report them (the crash itself is logged above)
+            sys.exit(rep.finish("model_checking", "(the check's own post-processing crashed after these violations were recorded)"))
+        log("TOOL TROUBLE: unexpected exception in the check")
         sys.exit(2)
 
 
